@@ -19,8 +19,8 @@ STUBS = ["operation codes are symbolic integers concretised by forking (every hi
          "numeric arguments are fixed valid values so that refusals are caused by the mode alone",
          "Waveform.modulation_buffers replaced by the constant (rise_time//2, rise_time//2): only timing values depend on it"]
 FLOAT_MODE = "no symbolic floats"
-BOUNDS = {"quick": dict(history_length=3, devices=["virt (physical-like, EOM, DMM, SLM)", "MockDevice (reusable, XY)"], alphabet=29),
-          "thorough": dict(history_length=4, devices=["virt", "MockDevice", "DigitalAnalogDevice"], alphabet=29)}
+BOUNDS = {"quick": dict(history_length=3, devices=["virt (physical-like, EOM, DMM, SLM)", "MockDevice (reusable, XY)"], alphabet="29 (+3 placed by prefixes: modify_eom_setpoint valid/refused, add_dmm_detuning)"),
+          "thorough": dict(history_length=4, devices=["virt", "MockDevice", "DigitalAnalogDevice"], alphabet="29 (+3 placed by prefixes: modify_eom_setpoint valid/refused, add_dmm_detuning)")}
 OUTSIDE = ["numeric refusals", "delay/enable_eom on a local channel without target (unspecified)",
            "SLM/DMM interplay beyond the asserted cases (unspecified)", "parametrized-mode acceptance other than inspection/measure/EOM gating/name reuse"]
 
@@ -43,6 +43,9 @@ DEV = {
 OPS = ["D_g", "D_g2", "D_gname", "D_l", "D_mw", "DMAP", "SLM", "ADD_g", "ADD_l", "ADD_mw", "TGT_l", "DLY_g",
        "EOM_on", "EOM_p", "EOM_off", "MEAS", "MEAS_xy", "VAR", "INSPECT", "ALIGN", "SHIFT", "ADD_g2", "DMAP2", "D_l2", "VAR_EOM",
        "EOM_on2", "EOM_off2", "D_l_init", "INSPECT_EST"]
+# further calls, placed by prefixes / as the first free call only (they are not part of the alphabet of the free choices)
+EXTRA = ["EOM_mod", "EOM_mod_bad", "ADD_dmm"]
+ALL = OPS + EXTRA
 
 
 class Model:
@@ -163,6 +166,16 @@ class Model:
             if "g" not in self.names or self.measured:
                 return False
             return bool(self.names["g"]["eom"])
+        if op == "EOM_mod":  # a new setpoint the channel can realise
+            if "g" not in self.names or self.measured:
+                return False
+            return bool(self.names["g"]["eom"])
+        if op == "EOM_mod_bad":  # a setpoint beyond the channel's maximum amplitude: refused, and (like every refused call) without effect
+            return False
+        if op == "ADD_dmm":
+            if self.measured or not self.dmm_n:
+                return False
+            return True
         if op == "MEAS":
             if self.measured:
                 return False
@@ -309,6 +322,14 @@ def do_op(seq, op, dev, st):
         seq.add_eom_pulse("g", 16, 0.0)
     elif op == "EOM_off":
         seq.disable_eom_mode("g")
+    elif op == "EOM_mod":
+        seq.modify_eom_setpoint("g", 2.0, 0.0)
+    elif op == "EOM_mod_bad":
+        seq.modify_eom_setpoint("g", 1.0e4, 0.0)
+    elif op == "ADD_dmm":
+        from pulser.waveforms import ConstantWaveform
+
+        seq.add_dmm_detuning(ConstantWaveform(16, -1.0), "dmm_0")
     elif op == "MEAS":
         seq.measure("ground-rydberg")
     elif op == "MEAS_xy":
@@ -345,7 +366,7 @@ def h_history(shape):
         st = {}
         obs = []
         hist = []
-        prefix = [OPS.index(x) for x in shape.get("prefix", [])]
+        prefix = [ALL.index(x) for x in shape.get("prefix", [])]
         for i in range(len(prefix) + k):
             if i < len(prefix):
                 code = prefix[i]
@@ -353,7 +374,7 @@ def h_history(shape):
                 code = first
             else:
                 code = inp.choice("op%d" % i, len(OPS))
-            op = OPS[code]
+            op = ALL[code]
             hist.append(op)
             pred = m.predict(op)
             try:
@@ -420,6 +441,15 @@ def kernels(tier):
                    ["D_g", "D_g2", "VAR", "EOM_on2", "EOM_on", "EOM_off2"]):
         for first in range(len(OPS)):
             ks.append(("history", dict(device="virt_reuse", k=1 if quick else 2, first=first, prefix=prefix)))
+    # calls after the measurement of a PARAMETRIZED sequence (no timeline yet: every call is only recorded), a refused / accepted
+    # change of the EOM setpoint in the middle of an EOM block, pulses on the DMM
+    for dev, prefix in (("virt", ["D_g", "EOM_on", "VAR_EOM", "MEAS"]), ("virt", ["D_g", "VAR", "MEAS"]), ("virt", ["D_g", "DMAP", "VAR", "MEAS"]),
+                        ("mock", ["D_g", "DMAP", "VAR", "MEAS"]), ("virt", ["D_g", "DMAP", "MEAS"]), ("virt", ["D_g", "DMAP"]),
+                        ("virt", ["D_g", "EOM_on", "EOM_mod_bad"]), ("virt", ["D_g", "EOM_on", "EOM_p", "EOM_mod_bad"]),
+                        ("virt", ["D_g", "EOM_on", "EOM_p", "EOM_mod"]), ("virt", ["D_g", "VAR", "EOM_on", "EOM_mod_bad"]),
+                        ("virt", ["D_g", "EOM_on", "VAR_EOM", "EOM_mod"])):
+        for first in range(len(ALL)):
+            ks.append(("history", dict(device=dev, k=1 if quick else 2, first=first, prefix=prefix)))
     return ks
 
 
